@@ -13,9 +13,10 @@ W  work        (round 3) every internal loop driven past 2^7 .. 2^20 iterations 
                construction: search() calls (infeasible parity gadget behind k binary blocks: exactly 6*2^k-1 calls and covers),
                solutions recorded (2^13, 10164, 70520, 2^17), MRV scan / row ring / header rings over 4097 .. 100001 columns, column
                rings over 2^20+1 rows, recursion depth 4097
-A2 in-place    (round 3) call, edit the caller's objects IN PLACE (cell, row, names incl. making two names equal, secondary), call
+A2 in-place    (round 3) call, edit the caller's objects IN PLACE (cell, row, names, secondary), call
                again on the same objects, compare with a fresh call on a deep copy
-X  floats      (round 3) entries / names / limits that are floats: 0.0, -0.0, nan, inf, 1e308, 5e-324, 33.0 vs 33, 2.5
+X  floats      (round 3) entries / names / limits that are floats: 0.0, -0.0, 5e-324, 33.0 vs 33, 2.5 (judged); nan, inf, 1e308 and
+               duplicate column names are generated too but only observed (POLICY_X)
 H  histories   an instrumented reference port of Algorithm X reports rare internal events; missing events are searched for
                by mutation; minimised witnesses per event live in corpus/C07/ev_*.json
 """
@@ -111,10 +112,12 @@ def gen_labels(rng, gen_matrix):
         rng.shuffle(sec)
         return _case(m, names, sec or None, find_all=rng.random() < 0.85, family="L:duplicate_names")
     if r < 0.25:
-        pool = [1.0, 0.0, float("nan"), float("inf"), 1e308, 33.0, 0.5, -1e-300, 5e-324, float("-inf")]
+        pool = [1.0, 0.0, 33.0, 0.5, -1e-300, 5e-324, 2.5, -7.0, 1e299, 1e-12]
+        if rng.random() < 0.2:  # observation-only names
+            pool += [float("nan"), float("inf"), 1e308, float("-inf")]
         rng.shuffle(pool)
         names = pool[:nc]
-        sec = [x for x in names if rng.random() < 0.4] + [x for x in (1, 0, 33, 10**308) if rng.random() < 0.3]
+        sec = [x for x in names if rng.random() < 0.4] + [x for x in (1, 0, 33, -7, 10**299) if rng.random() < 0.3]
         rng.shuffle(sec)
         return _case(m, names, sec or None, find_all=rng.random() < 0.85, family="X:float_names")
     scheme, names = _name_scheme(rng, nc)
@@ -237,12 +240,19 @@ NAN, INF = float("nan"), float("inf")
 
 
 def gen_floats(rng, gen_matrix):
+    """Float entries / limits / secondary positions.  85 % of the cases are finite and well scaled (judged); the rest carry NaN,
+    +-inf or |v| >= 1e300 somewhere and are observation-only."""
     m, nc = _base(rng, gen_matrix, 1, 1)
-    truthy = [1.0, 33.0, NAN, INF, -INF, 1e308, -1e308, 5e-324, -1e-300, 2.0**60, -2.0**60, 1e-12, 0.1 + 0.2 - 0.3]
+    wild = rng.random() < 0.15
+    truthy = [1.0, 33.0, 5e-324, -1e-300, 2.0**60, -2.0**60, 1e-12, 0.1 + 0.2 - 0.3, 1e299, -7.5]
+    lim_i = [10.0, 3.0, 2.5, 0.0, -0.0, 0.5, -0.5, 1e-9, 25.0, 7.999999999, 1e15, -3.0, 1.0, 9.0]
+    lim_s = [1.0, 2.0, 2.5, 0.0, -0.0, 0.5, -0.5, 5.0, 3.0, -1.0, 1e15]
+    if wild:
+        truthy += [NAN, INF, -INF, 1e308, -1e308]
+        lim_i += [INF, -INF, NAN, 1e308] * 2
+        lim_s += [INF, -INF, NAN, 1e308] * 2
     falsy = [0.0, -0.0, 0, False]
     m = [[(rng.choice(truthy) if rng.random() < 0.7 else 1) if v else rng.choice(falsy) for v in row] for row in m]
-    lim_i = [INF, -INF, NAN, 10.0, 3.0, 2.5, 0.0, -0.0, 1e308, 0.5, -0.5, 1e-9, 25.0, 7.999999999]
-    lim_s = [INF, -INF, NAN, 1.0, 2.0, 2.5, 0.0, -0.0, 1e308, 0.5, -0.5, 5.0]
     r = rng.random()
     mi = rng.choice(lim_i) if r < 0.5 else None
     ms = rng.choice(lim_s) if r > 0.35 else None
@@ -352,9 +362,9 @@ def inplace_check(case, rng, mk_label, call_args, canon_result, options, run_imp
             i, j = rng.randrange(nr), rng.randrange(nr)
             M[i], M[j] = M[j], M[i]
             cur["matrix"][i], cur["matrix"][j] = cur["matrix"][j], cur["matrix"][i]
-        elif k == 5 and cols and nc > 1:  # rename a column to the name of another one (duplicate names) or to a new name
-            i, j = rng.sample(range(nc), 2)
-            d = cur["columns"][j] if rng.random() < 0.6 else "new%d" % step
+        elif k == 5 and cols and nc > 1:  # rename a column in place (new distinct name; equal names are outside the property)
+            i = rng.randrange(nc)
+            d = "new%d" % step
             cur["columns"][i] = d
             cols[i] = mk_label(d)
         elif k == 6 and cols and nc > 1:  # swap two names
